@@ -160,7 +160,7 @@ def gen_cases_raw(ctx):
     for _ in range(800 if not th else 8000):
         n = r.choice([1, 1, 2, 3, 5, 10, 30])
         fmt = r.choice(["tum", "kitti"])
-        c = {"kind": "text", "fmt": fmt, "variant": r.choice(["h", "p"]), "rw": r.choice(["h", "p"])}
+        c = {"kind": "text", "fmt": fmt, "variant": r.choice(["h", "p"]), "rw": r.choice(["h", "p", "ho"])}
         c.update(gen_traj(r, n) if fmt == "tum" else {"mats": gen_mats(r, n)})
         if fmt == "tum" and r.random() < 0.12:          # L6: the writers accept unsorted / duplicate stamps
             st = c["stamps"]
@@ -491,6 +491,15 @@ def impl_text(c):
             text = fh.read().decode("utf-8")
     if c["rw"] == "h":
         back = rd(io.StringIO(text))
+    elif c["rw"] == "ho":
+        # a handle that is not at offset 0: another trajectory was written into
+        # the same stream before; the reader gets the handle where this one starts
+        buf = io.StringIO()
+        wr(buf, obj)
+        at = buf.tell()
+        wr(buf, obj)
+        buf.seek(at)
+        back = rd(buf)
     else:
         p = os.path.join(tmpdir(), "r.txt")
         with open(p, "wb") as fh:
